@@ -246,6 +246,54 @@ void add_nesting_cases(std::vector<ForkCase>& cases, Rng& rng, bool thorough)
    }
 }
 
+// Every controlling statement (if, if-else, while, do, switch, for, for-in, labeled, handler) over every kind of controlled
+// body (a null statement = expression statement of a phantom, a bare phantom, an expression statement, an empty block, a block
+// with one / two statements, break, a nested controlling statement, a declaration), alone and twice inside an enclosing block:
+// each complete statement must leave the printer's indentation where it found it.
+void add_body_matrix_cases(std::vector<ForkCase>& cases)
+{
+   for (int outer = 0; outer < 9; ++outer) for (int body = 0; body < 9; ++body) {
+      std::string label = "body-matrix:" + std::to_string(outer) + "x" + std::to_string(body);
+      cases.push_back({ label, [outer, body, label](CaseOut& out) {
+         impl::Lexicon lex; impl::Translation_unit unit { lex }; const Lexicon& L = lex; auto& greg = *unit.global_region();
+         auto* cond = lex.make_less(*lex.make_id_expr(lex.get_identifier(u8"i")), *lex.make_literal(L.int_type(), u8"10"));
+         auto make_body = [&](int kind) -> const Expr* {
+            switch (kind) {
+            case 0: return lex.make_expr_stmt(*lex.make_phantom());
+            case 1: return lex.make_phantom();
+            case 2: return lex.make_expr_stmt(*lex.make_literal(L.int_type(), u8"1"));
+            case 3: return lex.make_block(greg);
+            case 4: { auto* b = lex.make_block(greg); b->add_stmt(*lex.make_break()); return b; }
+            case 5: { auto* b = lex.make_block(greg); b->add_stmt(*lex.make_expr_stmt(*lex.make_phantom())); b->add_stmt(*lex.make_continue()); return b; }
+            case 6: return lex.make_break();
+            case 7: { auto* w = lex.make_while(); w->control = cond; w->stmt = lex.make_expr_stmt(*lex.make_phantom()); return w; }
+            default: { auto* b = lex.make_block(greg); auto* v = b->lexical_region.scope.make_var(lex.get_identifier(u8"local"), L.int_type()); b->add_stmt(*v); return b; }
+            }
+         };
+         auto make_outer = [&](const Expr* bd) -> const Expr* {
+            auto as_stmt = [&](const Expr* e) -> const ipr::Stmt* { if (auto st = dynamic_cast<const ipr::Stmt*>(e)) return st; return lex.make_expr_stmt(*e); };
+            switch (outer) {
+            case 0: return lex.make_if(*cond, *bd);
+            case 1: return lex.make_if(*cond, *bd, *make_body(body));
+            case 2: { auto* w = lex.make_while(); w->control = cond; w->stmt = bd; return w; }
+            case 3: { auto* w = lex.make_do(); w->control = cond; w->stmt = bd; return w; }
+            case 4: { auto* w = lex.make_switch(); w->control = cond; w->stmt = bd; return w; }
+            case 5: { auto* f = lex.make_for(); f->init = lex.make_phantom(); f->cond = cond; f->inc = lex.make_phantom(); f->stmt = as_stmt(bd); return f; }
+            case 6: { auto* f = lex.make_for_in(); auto* b = lex.make_block(greg); f->var = b->lexical_region.scope.make_var(lex.get_identifier(u8"x"), L.int_type()); f->seq = cond; f->stmt = as_stmt(bd); return f; }
+            case 7: return lex.make_labeled_stmt(*lex.make_id_expr(lex.get_identifier(u8"lbl")), *bd);
+            default: { auto* b = lex.make_block(greg); b->add_stmt(*lex.make_break()); auto* h = b->new_handler(lex.get_identifier(u8"e"), L.int_type()); h->body().add_stmt(*bd); return b; }
+            }
+         };
+         const Expr* alone = make_outer(make_body(body));
+         { PrintCheck pc { out, label, R_STMT, true, {} }; pc.run(lex, [&](Printer& pp) { pp << xpr_stmt(*alone); }); }
+         auto* enclosing = lex.make_block(greg);
+         enclosing->add_stmt(*make_outer(make_body(body))); enclosing->add_stmt(*lex.make_expr_stmt(*lex.make_literal(L.int_type(), u8"2"))); enclosing->add_stmt(*make_outer(make_body(body)));
+         { PrintCheck pc { out, label + ":twice-in-a-block", R_STMT, true, {} }; pc.run(lex, [&](Printer& pp) { pp << xpr_stmt(*enclosing); }); }
+         out.count("body_matrix_cases");
+      } });
+   }
+}
+
 void add_program_cases(std::vector<ForkCase>& cases, Rng& rng, bool thorough)
 {
    const int n = thorough ? 1500 : 30;
@@ -330,6 +378,7 @@ static void body(Ctx& C)
    add_literal_cases(cases, rng, C.thorough);
    add_delimiter_and_operator_cases(cases);
    add_nesting_cases(cases, rng, C.thorough);
+   add_body_matrix_cases(cases);
    add_program_cases(cases, rng, C.thorough);
    std::vector<ForkCase> mine;
    for (std::size_t i = 0; i < cases.size(); ++i) if (int(i % std::size_t(C.workers)) == C.worker) mine.push_back(std::move(cases[i]));
@@ -337,7 +386,7 @@ static void body(Ctx& C)
    C.count("cases", (long long)mine.size());
    auto st = run_cases_forked(C, mine, 120);
    (void)st;
-   for (auto k : { "outcome:completed", "outcome:refused", "probes", "literal_spellings", "delimiter_cases", "operator_name_cases", "nesting_cases", "generated_programs", "located_statements_printed", "cases_completed", "numbers_checked" }) C.need(k);
+   for (auto k : { "outcome:completed", "outcome:refused", "probes", "literal_spellings", "delimiter_cases", "operator_name_cases", "nesting_cases", "generated_programs", "located_statements_printed", "cases_completed", "numbers_checked", "body_matrix_cases" }) C.need(k);
    C.sample(J().s("case", "expr:Demotion").s("what", "a sweep node of kind Demotion offered as xpr_expr; outcome must be completed or refused(logic_error)").str());
    C.sample(J().s("case", "literal:single-byte 0x01").s("what", "literal whose spelling is byte 1, then 255/64/F7001:1234:89 through the same printer").str());
    C.sample(J().s("case", "nesting:depth-200").s("what", "200 nested if/while/switch/for/labeled/try constructs printed as one statement; indentation restored").str());
